@@ -1,5 +1,7 @@
 pub mod codec;
 pub mod core;
+pub mod cutoff;
+pub mod desync;
 pub mod drop;
 pub mod lifecycle_check;
 pub mod malformed;
@@ -19,6 +21,8 @@ pub fn judge_for(prop: &str) -> JudgeFn {
         "C06" => spectator::judge,
         "C07" => drop::judge,
         "C08" => malformed::judge,
+        "C09" => desync::judge,
+        "C10" => cutoff::judge,
         "C12" => lifecycle_check::judge,
         _ => core::no_judge,
     }
